@@ -2375,7 +2375,7 @@ pub fn run_c16(p: &Params) -> Outcome {
 // C08 across threads: the vector lives on one thread, every subscriber stream on its own
 // park/unpark thread (this is what `unsafe impl Send for ReusableBoxRecvFuture` promises to allow).
 
-fn round_c08_threads(seed: u64, pm: u64) -> Result<(usize, usize), String> {
+pub fn round_c08_threads(seed: u64, pm: u64) -> Result<(usize, usize), String> {
     use eyeball_im::{ObservableVector, VectorDiff};
     use imbl::Vector;
     install_hook();
@@ -2392,20 +2392,70 @@ fn round_c08_threads(seed: u64, pm: u64) -> Result<(usize, usize), String> {
     for k in 0..n_subs {
         let sub = ob.subscribe();
         let batched = rng.chance(1, 2);
+        // a third of the subscribers watch through an adapter (filter / sort / tail): what they rebuild must be the
+        // adapter's view of what the vector holds (C13 for the batched flavour, the adapter's own property otherwise)
+        let adapter = if rng.chance(1, 3) { rng.range(1, 3) } else { 0 };
         let q = quiesce.clone();
         let wd = writer_done.clone();
         let fs = fin_slot.clone();
         let sseed = mix(seed, 10 + k as u64);
-        hs.push(std::thread::spawn(move || -> Result<(Vector<u64>, usize, usize), String> {
+        hs.push(std::thread::spawn(move || -> Result<(Vector<u64>, usize, usize, usize), String> {
             set_free_mode(sseed, pm);
-            let mut replica = sub.values();
+            use eyeball_im_util::vector::{VectorObserverExt, VectorSubscriberExt};
             let mut items = 0usize;
             let mut resets = 0usize;
+            type DU = std::pin::Pin<Box<dyn Stream<Item = VectorDiff<u64>> + Send>>;
+            type DB = std::pin::Pin<Box<dyn Stream<Item = Vec<VectorDiff<u64>>> + Send>>;
             enum St {
-                U(std::pin::Pin<Box<eyeball_im::VectorSubscriberStream<u64>>>),
-                B(std::pin::Pin<Box<eyeball_im::VectorSubscriberBatchedStream<u64>>>),
+                U(DU),
+                B(DB),
             }
-            let mut st = if batched { St::B(Box::pin(sub.into_batched_stream())) } else { St::U(Box::pin(sub.into_stream())) };
+            let view = move |v: &Vector<u64>| -> Vector<u64> {
+                match adapter {
+                    0 => v.clone(),
+                    1 => v.iter().filter(|x| **x % 2 == 0).copied().collect(),
+                    // (no Sort here: its Truncate arm is the known finding F6, which the adapter engine scopes)
+                    2 => v.iter().take(3).copied().collect(),
+                    _ => v.iter().skip(v.len().saturating_sub(4)).copied().collect(),
+                }
+            };
+            let (mut replica, mut st): (Vector<u64>, St) = match (batched, adapter) {
+                (false, 0) => (sub.values(), St::U(Box::pin(sub.into_stream()))),
+                (true, 0) => (sub.values(), St::B(Box::pin(sub.into_batched_stream()))),
+                (false, 1) => {
+                    let (v, s) = sub.filter(|x: &u64| *x % 2 == 0);
+                    (v, St::U(Box::pin(s)))
+                }
+                (true, 1) => {
+                    let (v, s) = sub.batched().filter(|x: &u64| *x % 2 == 0);
+                    (v, St::B(Box::pin(s)))
+                }
+                (false, 2) => {
+                    let (v, s) = sub.head(3);
+                    (v, St::U(Box::pin(s)))
+                }
+                (true, 2) => {
+                    let (v, s) = sub.batched().head(3);
+                    (v, St::B(Box::pin(s)))
+                }
+                (false, _) => {
+                    let (v, s) = sub.tail(4);
+                    (v, St::U(Box::pin(s)))
+                }
+                (true, _) => {
+                    let (v, s) = sub.batched().tail(4);
+                    (v, St::B(Box::pin(s)))
+                }
+            };
+            let tags_view = match (batched, adapter) {
+                (_, 0) => "[C06]",
+                (true, 1) => "[C06|C10|C13]",
+                (true, 2) => "[C06|C09|C13]",
+                (true, _) => "[C06|C09|C13]",
+                (false, 1) => "[C06|C10]",
+                (false, 2) => "[C06|C09]",
+                (false, _) => "[C06|C09]",
+            };
             loop {
                 let (flag, w) = pause_waker(true);
                 let mut cx = Context::from_waker(&w);
@@ -2442,10 +2492,11 @@ fn round_c08_threads(seed: u64, pm: u64) -> Result<(usize, usize), String> {
                                 // changes - the replica must equal its contents (C06)
                                 checked = true;
                                 let fin = fs.lock().unwrap().clone().unwrap();
-                                if replica != fin {
+                                if replica != view(&fin) {
                                     return Err(format!(
-                                        "[C06] subscriber {k} ({}) reports Pending after the writer finished, with replica {:?} but the vector holds {:?}",
+                                        "{tags_view} subscriber {k} ({}{}) reports Pending after the writer finished, with replica {:?} but the vector holds {:?}",
                                         if batched { "batched" } else { "plain" },
+                                        ["", ", through filter(even)", ", through head(3)", ", through tail(4)"][adapter],
                                         replica.iter().collect::<Vec<_>>(),
                                         fin.iter().collect::<Vec<_>>()
                                     ));
@@ -2461,12 +2512,29 @@ fn round_c08_threads(seed: u64, pm: u64) -> Result<(usize, usize), String> {
                 }
             }
             clear_mode();
-            Ok((replica, items, resets))
+            // compared by the caller with the final contents: hand back what the view of them should be compared to
+            let _ = &view;
+            Ok((replica, items, resets, adapter))
         }));
     }
     set_free_mode(mix(seed, 5), pm);
     let mut ctr = 100u64;
+    // a bursty writer (capacity + 3 updates, then a pause) lets a subscriber fall behind in the middle of one poll
+    // and then find the channel quiet
+    let bursty = rng.chance(1, 2);
+    let mut in_burst = 0usize;
     for _ in 0..ops {
+        if bursty {
+            in_burst += 1;
+            if in_burst > cap + 3 {
+                in_burst = 0;
+                let t = Instant::now();
+                let d = Duration::from_micros(rng.range(20, 300) as u64);
+                while t.elapsed() < d {
+                    std::thread::yield_now();
+                }
+            }
+        }
         ctr += 1;
         let len = ob.len();
         match rng.below(10) {
@@ -2512,11 +2580,17 @@ fn round_c08_threads(seed: u64, pm: u64) -> Result<(usize, usize), String> {
     quiesce.set();
     let mut total = 0;
     for (k, h) in hs.into_iter().enumerate() {
-        let (replica, items, _resets) = h.join().map_err(|_| "subscriber thread panicked".to_string())??;
+        let (replica, items, _resets, adapter) = h.join().map_err(|_| "subscriber thread panicked".to_string())??;
         total += items;
-        if replica != fin {
+        let want: Vector<u64> = match adapter {
+            0 => fin.clone(),
+            1 => fin.iter().filter(|x| **x % 2 == 0).copied().collect(),
+            2 => fin.iter().take(3).copied().collect(),
+            _ => fin.iter().skip(fin.len().saturating_sub(4)).copied().collect(),
+        };
+        if replica != want {
             return Err(format!(
-                "[C06|C08] subscriber {k} ended with replica {:?} but the final contents are {:?}",
+                "[C06|C08|C13] subscriber {k} ended with replica {:?} but the final contents are {:?}",
                 replica.iter().collect::<Vec<_>>(),
                 fin.iter().collect::<Vec<_>>()
             ));
